@@ -25,34 +25,49 @@ def main(tier):
                    "forwards a caller-chosen one")
     n = 0
     for f in rs.fns:
-        if f.hir is None or f.path.endswith("::new_with_overflow"):
+        if f.hir is None or f.path.endswith("::new_with_overflow") or f.kind == "Closure":
             continue
-        for x in hir_walk(f.hir):
-            if not (isinstance(x, dict) and x.get("k") == "call"):
-                continue
-            fn = str(x.get("fn", ""))
-            if fn.endswith("PlainYearMonth::new_with_overflow"):
-                ref = x["args"][2]
-                what = "reference day"
-            elif fn.endswith("PlainMonthDay::new_with_overflow"):
-                ref = x["args"][4]
-                what = "reference year"
-            else:
-                continue
-            n += 1
-            locs = sorted({y["res"]["local"] for y in hir_walk(ref) if isinstance(y, dict) and y.get("k") == "path"
-                           and "local" in y.get("res", {})})
-            lits = [y["v"].get("int") for y in hir_walk(ref) if isinstance(y, dict) and y.get("k") == "lit"]
-            from_icu = any(isinstance(y, dict) and y.get("k") == "mcall" and "icu_calendar" in str(y.get("fn", ""))
-                           for y in hir_walk(ref))
-            is_none = ref.get("k") == "path" and str(ref["res"].get("def", "")).endswith("Option::None")
-            const_ok = is_none or (not locs and lits in ([1], [1972]))
-            key = "%s/%s#%d" % (f.path, what.replace(" ", "-"), n)
-            run.check(const_ok or from_icu, rule, key,
-                      "%s is %s" % (what, "None" if is_none else "constant %s" % lits if const_ok else "computed by ICU"),
-                      "%s passes a %s derived from %s to %s; a year-month/month-day built from fields must carry the "
-                      "canonical hidden reference" % (f.name, what, locs, fn.rsplit("::", 2)[-2]),
-                      "%s:%s" % (f.file, node_line(x)))
+        txt = str(f.hir)
+        if "PlainYearMonth::new_with_overflow" not in txt and "PlainMonthDay::new_with_overflow" not in txt:
+            continue
+        ev = H.Evaluator(fx)
+        ev.inline = lambda p: p.startswith("temporal_rs::error::")
+        try:
+            paths = ev.paths(f, [H.Sym("param", (p["name"],)) for p in f.params], max_paths=300)
+        except (H.Budget, H.Panic):
+            run.ok(rule, f.path + "/paths", "too many paths: not decided", f.loc, nontrivial=False)
+            continue
+        seen = set()
+        for dec, res, tr in paths:
+            for c in tr:
+                fn = str(c.parts[0])
+                if fn.endswith("PlainYearMonth::new_with_overflow") and len(c.parts[1]) > 2:
+                    ref, what = c.parts[1][2], "reference day"
+                elif fn.endswith("PlainMonthDay::new_with_overflow") and len(c.parts[1]) > 4:
+                    ref, what = c.parts[1][4], "reference year"
+                else:
+                    continue
+                sref = show(ref)
+                if (what, sref) in seen:
+                    continue
+                seen.add((what, sref))
+                n += 1
+                inner = ref.args[0] if isinstance(ref, H.V) and ref.path == H.SOME and ref.args else ref
+                is_none = isinstance(ref, H.V) and ref.path == H.NONE
+                const_ok = is_none or inner in (1, 1972)
+                from_icu = any(isinstance(y, H.Sym) and y.what == "call" and
+                               any(w in str(y.parts[0]) for w in ("icu_calendar", "date_to_iso", "day_of_month", "extended_year"))
+                               for y in walk(ref))
+                caller = sorted(set(params_in(ref)) - {"self"})
+                key = "%s/%s#%d" % (f.path, what.replace(" ", "-"), len(seen))
+                if not (const_ok or from_icu) and not caller:
+                    run.ok(rule, key, "%s is `%s`: neither a constant nor recognisably computed by the calendar library: not decided" %
+                           (what, sref[:60]), f.loc, nontrivial=False)
+                    continue
+                run.check(const_ok or (from_icu and True), rule, key,
+                          "%s is %s" % (what, "None" if is_none else "the constant %s" % inner if const_ok else "computed by ICU"),
+                          "%s passes a %s derived from %s (`%s`) to %s; a year-month/month-day built from fields must carry the "
+                          "canonical hidden reference" % (f.name, what, caller, sref[:70], fn.rsplit("::", 2)[-2]), f.loc)
     if n < 3:
         run.anchor_missing(rule, "constructor-calls", "only %d internal constructor calls found (expected >= 3)" % n)
     # the day resolver ignores `day` for year-months
